@@ -111,6 +111,7 @@ func (p *Pool) Run(items []json.RawMessage, handle func(PoolResult)) int {
 	}
 	var mu sync.Mutex
 	next := 0
+	abandoned := 0
 	take := func() int {
 		mu.Lock()
 		defer mu.Unlock()
@@ -163,11 +164,34 @@ func (p *Pool) Run(items []json.RawMessage, handle func(PoolResult)) int {
 						timedOut = true
 						cmd.Process.Kill()
 					})
+					// an item still running some time after the pool's deadline is abandoned: it counts as not explored
+					// (the run reports exhaustive:false), not as a failure
+					cutOff := false
+					var cutTimer *time.Timer
+					if !p.Deadline.IsZero() {
+						d := time.Until(p.Deadline) + deadlineGrace
+						if d < deadlineGrace {
+							d = deadlineGrace
+						}
+						cutTimer = time.AfterFunc(d, func() {
+							cutOff = true
+							cmd.Process.Kill()
+						})
+					}
 					line, err := rd.ReadBytes('\n')
 					timer.Stop()
+					if cutTimer != nil {
+						cutTimer.Stop()
+					}
 					if err != nil {
 						stdin.Close()
 						cmd.Wait()
+						if cutOff && !timedOut {
+							mu.Lock()
+							abandoned++
+							mu.Unlock()
+							return
+						}
 						if timedOut {
 							emit(PoolResult{Index: i, Crashed: fmt.Sprintf("TIMEOUT: no answer within %v; last output: %s", to, stderr.String())})
 						} else {
@@ -193,8 +217,11 @@ func (p *Pool) Run(items []json.RawMessage, handle func(PoolResult)) int {
 		}()
 	}
 	wg.Wait()
-	return next
+	return next - abandoned
 }
+
+// deadlineGrace: how long after the pool's deadline an item in progress may still finish.
+const deadlineGrace = 2 * time.Minute
 
 // tailBuf keeps the last 8 KB written to it.
 type tailBuf struct {
